@@ -138,6 +138,13 @@ class Unit:
             elif cmd == 'builder':
                 self.do_builder(pos[0], pos[1], kw)
                 i += 1
+            elif cmd == 'derives':
+                kw['traits'] = pos[3]
+                self.do_derives(pos[0], pos[1], pos[2], kw)
+                i += 1
+            elif cmd == 'frozen':
+                self.do_frozen(pos[0], kw)
+                i += 1
             elif cmd == 'fromimpl':
                 self.do_fromimpl(pos[0], pos[1], kw)
                 i += 1
@@ -253,6 +260,10 @@ class Unit:
             if kw.get('optional'):
                 return
             raise AnchorLost(str(e))
+        if kw.get('requires_derive'):
+            # the template carries a stand-in for what `#[derive(..)]` generates for this item (Clone, Default, ..): the
+            # derive has to be there, and no hand-written impl of that trait may exist in the file
+            self.check_derives(src, rel, it, name, kw['requires_derive'].split(','))
         t = self.clean_item_text(src.text[it.start:it.end], kw)
         if kw.get('vis') == 'none':
             # for items placed inside a trait impl, where a visibility qualifier is not allowed
@@ -264,6 +275,46 @@ class Unit:
                 t = t2
         self.extracted.append((rel, '%s %s' % (kind, name)))
         self.emit_mapped(t, src.text[it.start:it.end], rel, src.text.count('\n', 0, it.start) + 1)
+
+    def check_derives(self, src, rel, it, name, traits):
+        raw = src.text[it.start:it.end]
+        head = raw[:it.text_start - it.start]
+        derived = set()
+        for dm in re.finditer(r'#\[derive\(([^)]*)\)\]', head):
+            derived.update(x.strip().split('::')[-1] for x in dm.group(1).split(','))
+        for tr in traits:
+            tr = tr.strip()
+            if not tr:
+                continue
+            if tr not in derived:
+                raise AnchorLost('%s: `%s` no longer derives %s (the template assumes the derived impl)' % (rel, name, tr))
+            if re.search(r'\bimpl\b[^{;]*\b%s\b\s+for\s+%s\b' % (tr, name), mask(src.text)):
+                raise AnchorLost('%s: a hand-written `impl %s for %s` exists next to the derive' % (rel, tr, name))
+
+    def do_derives(self, rel, kind, name, kw):
+        """//@derives FILE KIND NAME Trait[,Trait..]: only the check of check_derives (the item itself is emitted elsewhere)"""
+        src = self.src(rel)
+        try:
+            it = src.find(kind, name)
+        except LookupError as e:
+            raise AnchorLost(str(e))
+        self.check_derives(src, rel, it, name, kw['traits'].split(','))
+
+    def do_frozen(self, rel, kw):
+        """//@frozen FILE impl=".." name=f sha=HEX: a function that a stated rewrite or an assumption relies on but that is
+        not itself put under contract must still have the text (comments and white space aside) it had when the rewrite
+        was written; otherwise the unit is undecided"""
+        import hashlib
+        src = self.src(rel)
+        try:
+            it = src.find_fn(kw.get('impl'), kw['name'])
+        except LookupError as e:
+            raise AnchorLost(str(e))
+        txt = re.sub(r'\s+', ' ', self.rw.strip_comments(src.text[it.text_start:it.end])).strip()
+        h = hashlib.sha256(txt.encode()).hexdigest()[:16]
+        if kw.get('sha') != h:
+            raise AnchorLost('%s::%s: the text of this function changed (sha %s, expected %s); a stated rewrite / assumption depends on it' % (rel, kw['name'], h, kw.get('sha')))
+        self.rw.hit('W0.frozen_checked')
 
     def do_implblock(self, rel, header, kw):
         src = self.src(rel)
@@ -293,6 +344,15 @@ class Unit:
         # struct-level attribute
         head_attrs = raw[:it.text_start - it.start]
         has_validate = 'validate' in head_attrs
+        # fail closed on anything of derive_builder this stand-in does not model: the struct-level attribute may only be
+        # `build_fn(error = "..", validate = "Self::validate")`, and the validate function has to be the one the
+        # template puts under the `validate` contract
+        for hb in re.findall(r'#\[builder\((.*?)\)\]', self.rw.strip_comments(head_attrs), re.S):
+            hb_n = re.sub(r'\s+', '', hb)
+            if not re.fullmatch(r'build_fn\(error="\w+"(,validate="Self::validate")?\)', hb_n):
+                raise Unsupported('builder: struct-level attribute of %s is not modelled by the stand-in: #[builder(%s)]' % (name, hb.strip()))
+        if re.search(r'#\[derive\([^)]*\bBuilder\b', head_attrs) is None:
+            raise AnchorLost('builder: %s no longer derives Builder' % name)
         hm = re.search(r'\bstruct\s+' + name + r'\s*(<[^{>]*>)?\s*(where[^{]*)?\{', self.rw.strip_comments(raw[it.text_start - it.start:]), re.S)
         if not hm:
             raise Unsupported('builder: cannot parse struct header of ' + name)
@@ -325,6 +385,10 @@ class Unit:
             if not ft:
                 continue
             attrs = ' '.join(re.findall(r'#\[builder\((.*?)\)\]', ft, re.S))
+            for tok in re.split(r',(?![^()]*\))', re.sub(r'\s+', '', attrs)):
+                if tok and tok not in ('default', 'setter(strip_option)', 'setter(custom)'):
+                    # e.g. `default = "expr"`, `setter(into)`, `setter(skip)`, `field(..)`: a different generated code
+                    raise Unsupported('builder: field attribute `%s` of %s is not modelled by the stand-in' % (tok, name))
             decl = re.sub(r'#\[[^\]]*\]', '', ft, flags=re.S).strip()
             fm = re.match(r'(?:pub(?:\s*\([^)]*\))?\s+)?(\w+)\s*:\s*(.*)$', decl, re.S)
             if not fm:
@@ -500,6 +564,21 @@ class Unit:
         body = it.body_text()
         sig_line = it.line
         body_line = it.body_line()
+        mb_ = mask(body)
+        if re.search(r'#\s*\[\s*cfg\b|#\s*\[\s*cfg_attr\b|\bcfg!\s*\(', mb_):
+            # the verifier would see ONE configuration (debug assertions on); the property is about all builds
+            raise Unsupported('%s::%s: conditional compilation inside the function body' % (rel, name))
+        ih = kw.get('impl') or ''
+        tm = re.match(r'^(?:re:)?\^?impl(?:<[^>]*>)?\s+[\w:]+(?:<[^>]*>)?\s+for\s+(\w+)', ih)
+        if tm and not ih.startswith('re:'):
+            # a method of a trait impl under contract: an inherent method of the same name on the same type would be the
+            # one concrete call sites resolve to
+            ty = tm.group(1)
+            for im in re.finditer(r'\bimpl(?:<[^>]*>)?\s+%s(?:<[^>]*>)?\s*(?:where[^{]*)?\{' % ty, mask(src.text)):
+                ob_ = im.end() - 1
+                cb_ = match_close(mask(src.text), ob_)
+                if re.search(r'\bfn\s+%s\b' % re.escape(name), mask(src.text)[ob_:cb_]):
+                    raise AnchorLost('%s: inherent method `%s::%s` shadows the trait method under contract' % (rel, ty, name))
         if 'selectarm' in kw:
             # W7: one arm of the `futures::select!` of this function becomes a function of its own.
             # The arm body is copied verbatim; statements that re-arm the select futures are dropped
@@ -530,6 +609,32 @@ class Unit:
             head = norm(body[a0:arrow])
             if kw.get('armhead') and not re.search(kw['armhead'], head):
                 raise AnchorLost('%s::%s: select! arm %d is `%s`, expected /%s/' % (rel, name, an, head, kw['armhead']))
+            if kw.get('residue'):
+                # W7.residue: everything of the function from the line matching `resfrom` on, with the arm bodies cut
+                # out, must be exactly the expected loop skeleton (comments and white space aside): code that is in
+                # no extracted part (between prologue and loop, around the select!, a further arm) is refused
+                fm = re.search(kw['resfrom'], bm, flags=re.M)
+                if not fm:
+                    raise AnchorLost('%s::%s: residue start /%s/ not found' % (rel, name, kw['resfrom']))
+                pieces, pos = [], fm.start()
+                for (a0_, ar_, ob_, cb_) in arms:
+                    pieces.append(bm[pos:ob_] + '{..}')
+                    pos = cb_ + 1
+                pieces.append(bm[pos:])
+                got = re.sub(r'\s+', ' ', ''.join(pieces)).strip()
+                want = re.sub(r'\s+', ' ', kw['residue']).strip()
+                if got != want:
+                    raise AnchorLost('%s::%s: the part of the function outside the extracted prologue and select arms is not the expected skeleton: `%s`' % (rel, name, got[:300]))
+                self.rw.hit('W7.residue_checked')
+            if kw.get('drop'):
+                # the re-arm statement has to be a direct child of the arm block and its last statement
+                arm_m = bm[ob:cb + 1]
+                dm = list(re.finditer(r'\n[ \t]*(?:%s)[^;]*;' % kw['drop'], arm_m))
+                if len(dm) != 1:
+                    raise AnchorLost('%s::%s: expected exactly one re-arm statement /%s/ in select arm %d' % (rel, name, kw['drop'], an))
+                depth = arm_m.count('{', 0, dm[0].start()) - arm_m.count('}', 0, dm[0].start())
+                if depth != 1 or arm_m[dm[0].end():-1].strip() != '':
+                    raise AnchorLost('%s::%s: the re-arm statement of select arm %d is not the last top-level statement of the arm' % (rel, name, an))
             body_line = body_line + body.count('\n', 0, ob)
             body = body[ob:cb + 1]
             sig = kw['sig']
